@@ -833,13 +833,14 @@ structure HRel (busy : List Nat) (m : M) (seen : List Nat) (g : Nat) (led : HLed
   sk1 : NamedIn seen m 1 led.prev.sk1
   sk2 : NamedIn seen m 2 led.prev.sk2
   seenLt : ∀ x ∈ seen, x < m.nextSock
-  sockLt : ∀ a, m.sock a < m.nextSock
+  /-- the sockets of the two observed addresses have identities below the next fresh one -/
+  sockLt : ∀ a, a = 1 ∨ a = 2 → m.sock a < m.nextSock
 
-theorem sockLt_run {m : M} (acts : List Act) (h : ∀ a, m.sock a < m.nextSock) : ∀ a, (run m acts).sock a < (run m acts).nextSock := by
-  intro a
+theorem sockLt_run {m : M} (acts : List Act) (a : Nat) (h : m.sock a < m.nextSock) :
+    (run m acts).sock a < (run m acts).nextSock := by
   have hr := sockRel_run acts m
   rcases hr.fresh a with e | ⟨_, e⟩
-  · rw [e]; exact Nat.lt_of_lt_of_le (h a) hr.next
+  · rw [e]; exact Nat.lt_of_lt_of_le h hr.next
   · exact e
 
 theorem keepsAct_reload {a g : Nat} {m : M} {c : Cfg} (ha : a ∈ c.addrs) :
@@ -879,6 +880,176 @@ theorem addrLaw_ok {busy : List Nat} {m m1 : M} {seen seen1 : List Nat} {g : Nat
       rw [named_rename hnamed]
       have : prevSk ≠ 0 := named_ne_zero hprev (by rw [hmf]; decide)
       simp [this]
+
+open Casket.ReloadSpec
+
+theorem toString_ne_dash : True := trivial
+
+/-- one plain reload of the hand-over stream: the observation satisfies the judge and the ledger stays in step -/
+theorem reload_op_ok {busy : List Nat} {m : M} {seen : List Nat} {g : Nat} {led : HLedger} (h : HRel busy m seen g led)
+    (c : Cfg) :
+    stepLaw busy led (.reload c) (runOp g seen m (.reload c)).2.2 = none ∧
+    HRel busy (runOp g seen m (.reload c)).1 (runOp g seen m (.reload c)).2.1 (g + 1)
+      (advance busy led (.reload c) (runOp g seen m (.reload c)).2.2) := by
+  have hg := h.good
+  generalize hm1 : run m (reloadHead g m c ++ [.finish]) = m1
+  have hsl : ∀ a, a = 1 ∨ a = 2 → m1.sock a < m1.nextSock := by
+    intro a ha; rw [← hm1]; exact sockLt_run _ a (h.sockLt a ha)
+  have hsr : SockRel m m1 := by rw [← hm1]; exact sockRel_run _ m
+  cases hv : valid busy c
+  · -- the configuration is not valid for the environment: nothing changes
+    obtain ⟨g1, hcur, hbusy, _, _, hsock⟩ := reload_invalid (g := g) hg h.lt (by rw [h.busyEq]; exact hv)
+    rw [hm1] at g1 hcur hbusy hsock
+    have hfd : ∀ a, m1.fds a = m.fds a := by intro a; rw [good_fds g1 a, good_fds hg a, hcur]
+    have hres : resOf m1 g = "err" := by
+      have : ¬ m1.cur.gen = g := by rw [hcur]; have := h.lt; omega
+      simp [resOf, this]
+    obtain ⟨o1, o2, o3, o4⟩ := observe_good seen "err" g1
+    have hn1 : NamedIn seen m1 1 led.prev.sk1 :=
+      named_congr' (hfd 1) (fun hne => hsock 1 (by
+        have := good_fds hg 1; cases hc : m.cur.holds 1
+        · rw [hc] at this; exact absurd this hne
+        · rfl)) h.sk1
+    have hn2 : NamedIn seen m1 2 led.prev.sk2 :=
+      named_congr' (hfd 2) (fun hne => hsock 2 (by
+        have := good_fds hg 2; cases hc : m.cur.holds 2
+        · rw [hc] at this; exact absurd this hne
+        · rfl)) h.sk2
+    have e1 := named_rename hn1
+    have e2 := named_rename hn2
+    have ha1 : answerOf m1 1 = answerOf m 1 := by simp [answerOf, hcur]
+    have ha2 : answerOf m1 2 = answerOf m 2 := by simp [answerOf, hcur]
+    have hobs : (runOp g seen m (.reload c)).2.2 =
+        { res := "err", fd1 := m.fds 1, fd2 := m.fds 2, sk1 := led.prev.sk1, sk2 := led.prev.sk2,
+          p1 := answerOf m 1, p2 := answerOf m 2, mid := none, str := none } := by
+      simp only [runOp, hm1, hres, o1, hfd, e1, e2, ha1, ha2]
+    have hseen : (runOp g seen m (.reload c)).2.1 = seen := by
+      simp only [runOp, hm1, hres, o2, e1, e2]
+    have hstate : (runOp g seen m (.reload c)).1 = (observe seen m1 "err" none none).1 := by
+      simp only [runOp, hm1, hres]
+    rw [hobs, hseen, hstate]
+    constructor
+    · simp [stepLaw, HOp.cfg, hv, h.fd1, h.fd2, h.p1, h.p2]
+    · have hadv : advance busy led (.reload c) { res := "err", fd1 := m.fds 1, fd2 := m.fds 2, sk1 := led.prev.sk1, sk2 := led.prev.sk2, p1 := answerOf m 1, p2 := answerOf m 2, mid := none, str := none }
+          = { led with prev := { res := "err", fd1 := m.fds 1, fd2 := m.fds 2, sk1 := led.prev.sk1, sk2 := led.prev.sk2, p1 := answerOf m 1, p2 := answerOf m 2, mid := none, str := none }, next := led.next + 1 } := by
+        simp [advance, HOp.cfg, hv]
+      rw [hadv]
+      refine ⟨o3, by rw [o4.busy, hbusy]; exact h.busyEq, by rw [o4.cur, hcur]; exact h.gen,
+        by rw [o4.cur, hcur]; exact h.addrs, by simp [h.next], by rw [o4.cur, hcur]; have := h.lt; omega,
+        by rw [o4.fds]; exact (hfd 1).symm, by rw [o4.fds]; exact (hfd 2).symm,
+        by simp [answerOf, o4.cur, hcur], by simp [answerOf, o4.cur, hcur],
+        named_congr (by rw [o4.fds]) (by rw [o4.sock]) hn1, named_congr (by rw [o4.fds]) (by rw [o4.sock]) hn2,
+        fun x hx => by rw [o4.nextSock]; exact Nat.lt_of_lt_of_le (h.seenLt x hx) hsr.next,
+        fun a ha => by rw [o4.sock, o4.nextSock]; exact hsl a ha⟩
+  · -- the configuration is valid: the new generation takes over
+    obtain ⟨g1, hgen, haddrs, hbusy, _, _⟩ := reload_valid (g := g) hg h.lt (by rw [h.busyEq]; exact hv)
+    have hks : ∀ a, a ∈ c.addrs → m.cur.holds a = true → m1.sock a = m.sock a := by
+      intro a hac hah
+      rw [← hm1]
+      exact keeps_sock_run _ hg.inv (by simp [Keeps, hg.idle, hah]) (keepsAct_reload hac)
+    rw [hm1] at g1 hgen haddrs hbusy
+    have hres : resOf m1 g = "ok" := by simp [resOf, hgen]
+    obtain ⟨o1, o2, o3, o4⟩ := observe_good seen "ok" g1
+    obtain ⟨n1, l1, hl1, hl1m⟩ := rename_named seen m1 1
+    obtain ⟨n2, l2, hl2, hl2m⟩ := rename_named (rename seen m1 1).1 m1 2
+    have law1 := addrLaw_ok (busy := busy) (seen := seen) (seen1 := seen) (led := led) (a := 1) (prevSk := led.prev.sk1)
+      g1 hgen haddrs h.addrs hg h.sk1 (hks 1)
+    have law2 := addrLaw_ok (busy := busy) (seen := seen) (seen1 := (rename seen m1 1).1) (led := led) (a := 2)
+      (prevSk := led.prev.sk2) g1 hgen haddrs h.addrs hg (by rw [hl1]; exact named_ext l1 h.sk2) (hks 2)
+    have hobs : (runOp g seen m (.reload c)).2.2 =
+        { res := "ok", fd1 := m1.fds 1, fd2 := m1.fds 2, sk1 := (rename seen m1 1).2,
+          sk2 := (rename (rename seen m1 1).1 m1 2).2, p1 := answerOf m1 1, p2 := answerOf m1 2, mid := none, str := none } := by
+      simp only [runOp, hm1, hres, o1]
+    have hseen : (runOp g seen m (.reload c)).2.1 = (rename (rename seen m1 1).1 m1 2).1 := by
+      simp only [runOp, hm1, hres, o2]
+    have hstate : (runOp g seen m (.reload c)).1 = (observe seen m1 "ok" none none).1 := by
+      simp only [runOp, hm1, hres]
+    rw [hobs, hseen, hstate]
+    constructor
+    · simp only [stepLaw, HOp.cfg, hv, h.next, law1, law2]
+      simp
+    · have hadv : advance busy led (.reload c) { res := "ok", fd1 := m1.fds 1, fd2 := m1.fds 2, sk1 := (rename seen m1 1).2, sk2 := (rename (rename seen m1 1).1 m1 2).2, p1 := answerOf m1 1, p2 := answerOf m1 2, mid := none, str := none }
+          = { gen := led.next, addrs := c.addrs, prev := { res := "ok", fd1 := m1.fds 1, fd2 := m1.fds 2, sk1 := (rename seen m1 1).2, sk2 := (rename (rename seen m1 1).1 m1 2).2, p1 := answerOf m1 1, p2 := answerOf m1 2, mid := none, str := none }, next := led.next + 1 } := by
+        simp [advance, HOp.cfg, hv]
+      rw [hadv]
+      have n1' : NamedIn (rename (rename seen m1 1).1 m1 2).1 m1 1 (rename seen m1 1).2 := by
+        rw [hl2]; exact named_ext l2 n1
+      refine ⟨o3, by rw [o4.busy, hbusy]; exact h.busyEq, by rw [o4.cur, hgen]; exact h.next,
+        by rw [o4.cur, haddrs], by simp [h.next], by rw [o4.cur, hgen]; omega,
+        by rw [o4.fds], by rw [o4.fds],
+        by simp [answerOf, o4.cur], by simp [answerOf, o4.cur],
+        named_congr (m := m1) (by rw [o4.fds]) (by rw [o4.sock]) n1',
+        named_congr (m := m1) (by rw [o4.fds]) (by rw [o4.sock]) n2, ?_,
+        fun a ha => by rw [o4.sock, o4.nextSock]; exact hsl a ha⟩
+      intro x hx
+      rw [o4.nextSock]
+      rw [hl2, hl1] at hx
+      rcases List.mem_append.mp hx with hx | hx
+      · rcases List.mem_append.mp hx with hx | hx
+        · exact Nat.lt_of_lt_of_le (h.seenLt x hx) hsr.next
+        · rw [hl1m x hx]; exact hsl 1 (Or.inl rfl)
+      · rw [hl2m x hx]; exact hsl 2 (Or.inr rfl)
+
+open Casket.ReloadSpec
+
+theorem runOps_check {busy : List Nat} : ∀ (hops : List HOp) (m : M) (seen : List Nat) (g : Nat) (led : HLedger),
+    HRel busy m seen g led → (∀ op ∈ hops, ∃ c, op = .reload c) →
+    checkFrom busy led hops (runOps g seen m hops) = none := by
+  intro hops
+  induction hops with
+  | nil => intro m seen g led _ _; rfl
+  | cons op rest ih =>
+    intro m seen g led h hall
+    obtain ⟨c, rfl⟩ := hall op List.mem_cons_self
+    obtain ⟨h1, h2⟩ := reload_op_ok h c
+    simp only [runOps, checkFrom, h1]
+    exact ih _ _ _ _ h2 (fun o ho => hall o (List.mem_cons_of_mem _ ho))
+
+/-- the observation of a freshly started process and the ledger the judge starts from -/
+theorem start_ok {busy : List Nat} {c0 : Cfg} (hfree : ∀ a ∈ c0.addrs, busy.contains a = false) :
+    startLaw c0 (observe [] (M.init busy c0.addrs) "ok" none none).2.2 = none ∧
+    HRel busy (observe [] (M.init busy c0.addrs) "ok" none none).1 (observe [] (M.init busy c0.addrs) "ok" none none).2.1 2
+      { gen := 1, addrs := c0.addrs, prev := (observe [] (M.init busy c0.addrs) "ok" none none).2.2, next := 2 } := by
+  generalize hm1 : M.init busy c0.addrs = m1
+  have g1 : Good m1 := by rw [← hm1]; exact good_init busy c0.addrs hfree
+  have hgen : m1.cur.gen = 1 := by rw [← hm1]; rfl
+  have haddrs : m1.cur.addrs = c0.addrs := by rw [← hm1]; rfl
+  have hbusy : m1.busy = busy := by rw [← hm1]; rfl
+  have hsl : ∀ a, a = 1 ∨ a = 2 → m1.sock a < m1.nextSock := by
+    rw [← hm1]; intro a ha
+    rcases ha with rfl | rfl <;> simp [M.init]
+  obtain ⟨o1, o2, o3, o4⟩ := observe_good [] "ok" g1
+  obtain ⟨n1, l1, hl1, hl1m⟩ := rename_named [] m1 1
+  obtain ⟨n2, l2, hl2, hl2m⟩ := rename_named (rename [] m1 1).1 m1 2
+  -- the start law is the address law against an empty previous state
+  have g0 : Good (M.init busy []) := good_init busy [] (fun a ha => by simp at ha)
+  have named0 : ∀ (s : List Nat) (a : Nat), NamedIn s (M.init busy []) a 0 := fun s a => Or.inl ⟨by simp [M.init], rfl⟩
+  have law1 := addrLaw_ok (busy := busy) (seen := []) (seen1 := []) (a := 1) (prevSk := 0)
+    (led := { gen := 0, addrs := [], prev := (observe [] m1 "ok" none none).2.2, next := 1 })
+    g1 hgen haddrs rfl g0 (named0 _ 1) (fun _ hh => by simp [M.init] at hh)
+  have law2 := addrLaw_ok (busy := busy) (seen := []) (seen1 := (rename [] m1 1).1) (a := 2) (prevSk := 0)
+    (led := { gen := 0, addrs := [], prev := (observe [] m1 "ok" none none).2.2, next := 1 })
+    g1 hgen haddrs rfl g0 (named0 _ 2) (fun _ hh => by simp [M.init] at hh)
+  constructor
+  · simp only [startLaw, o1]
+    simp only [o1] at law1 law2
+    simp [law1, law2]
+  · have n1' : NamedIn (rename (rename [] m1 1).1 m1 2).1 m1 1 (rename [] m1 1).2 := by
+      rw [hl2]; exact named_ext l2 n1
+    rw [o1, o2]
+    refine ⟨o3, by rw [o4.busy, hbusy], by rw [o4.cur, hgen], by rw [o4.cur, haddrs], rfl, by rw [o4.cur, hgen]; omega,
+      by rw [o4.fds], by rw [o4.fds], by simp [answerOf, o4.cur], by simp [answerOf, o4.cur],
+      named_congr (m := m1) (by rw [o4.fds]) (by rw [o4.sock]) n1',
+      named_congr (m := m1) (by rw [o4.fds]) (by rw [o4.sock]) n2, ?_,
+      fun a ha => by rw [o4.sock, o4.nextSock]; exact hsl a ha⟩
+    intro x hx
+    rw [o4.nextSock]
+    rw [hl2, hl1] at hx
+    rcases List.mem_append.mp hx with hx | hx
+    · rcases List.mem_append.mp hx with hx | hx
+      · simp at hx
+      · rw [hl1m x hx]; exact hsl 1 (Or.inl rfl)
+    · rw [hl2m x hx]; exact hsl 2 (Or.inr rfl)
 
 
 end Casket.Reload
